@@ -7,6 +7,8 @@ import os
 import warnings
 
 import common
+import schemacase as sc
+from canon import cq_elem, Unmodelled
 import findings
 import gen
 from common import Result, rng_for
@@ -187,6 +189,7 @@ def run(tier, seed, replay=None):
     rng = rng_for(seed, "C02")
     stats = {"documents": 0, "modules": 0, "refused": 0, "classes": 0, "values": 0, "accepted": 0, "findings": {}, "cross_file": 0}
     batches = []
+    eq_cases, eq_meta = [], []
     if replay:
         p = json.load(open(replay))
         batches = [(p["files"], p["entry"])]
@@ -284,6 +287,11 @@ def run(tier, seed, replay=None):
             if not isinstance(g, ObjectMeta) or (g == c) is not True or (c == g) is not True:
                 bad = "generated class %s is not equal to the class obtained by parsing the schema directly" % c.__name__
                 break
+            try:   # the pair, as trees, for Coq: == recomputed by Equality.elem_eq, and whether C02_equal_classes_validate_identically applies
+                eq_cases.append("(%s, %s, true, true)" % (cq_elem(g), cq_elem(c)))
+                eq_meta.append({"files": files, "class": c.__name__})
+            except (Unmodelled, TypeError, AssertionError, RecursionError):
+                stats["pairs_unmodelled"] = stats.get("pairs_unmodelled", 0) + 1
         if bad:
             if fid:
                 stats["findings"][fid] = stats["findings"].get(fid, 0) + 1
@@ -311,9 +319,16 @@ def run(tier, seed, replay=None):
                                            what="the source schema %s %r, the generated root class %s it" % ("accepts" if want else "rejects", v, "accepts" if got else "rejects")))
                         break
         res.sample({"entry_schema_keys": sorted(files[entry]), "classes": expected, "module_head": text[:200]}, limit=3)
+    eq_cases, eq_meta = eq_cases[:600 if tier == "quick" else 4000], eq_meta[:600 if tier == "quick" else 4000]
+    codes, err = sc.eval_codes(["Elem", "Equality", "RunEq"], "run_eq_case", eq_cases, tag="c02e", shard=120) if eq_cases else ({}, None)
+    res.corr_error = err
+    # code 9 / 10 = the pair lies in the fragment of C17's congruence (without / with object classes inside): equal => validates identically by theorem
+    stats["theorem_applies"] = {"class_pairs": sum(1 for cs in (codes or {}).values() if 9 in cs or 10 in cs), "of": len(eq_cases)}
+    res.corr_mismatches = [dict(eq_meta[i], codes=[c for c in cs if c not in (9, 10)], what="Equality.elem_eq disagrees with == on a generated / parsed class pair")
+                           for i, cs in sorted((codes or {}).items()) if any(c not in (9, 10) for c in cs)]
     res.witness_status = {k: "fails" for k in stats["findings"]}
     res.coverage["distribution"] = stats
-    res.coverage["traces_validated_against_impl"] = stats["modules"]
+    res.coverage["traces_validated_against_impl"] = stats["modules"] + len(eq_cases)
     res.coverage["rule"] = ("documents written to files (templates: local and cross-file $ref, a definition used twice, untitled nested objects, repeated "
                             "titles between root tree and definitions, `false` sub-schemas in every position, all keyword families; generated schemas over a "
                             "pool of colliding titles, 40% with a local or cross-file shared definition) through statham.__main__.main; the module text is "
